@@ -84,12 +84,46 @@ def stream_run(rng, kind, nrows, B, batch, pause_at, depeof, width):
     return d, w, worst, maxpull
 
 
-def stalled_client(rng, kind, B, batch, widths, depeof):
+def stalled_client(rng, kind, B, batch, widths, depeof, history=None):
     """a client that stops reading right after sending its command and never resumes: the server may fill its write buffer once
     (B bytes), then has to wait in drain() - whatever the width of the rows (narrower than, equal to, wider than the buffer)"""
     d = ls.Driver(rng, buffer_size=B, batch=batch)
     d.handshake(True, depeof); d.decide("ASuccess"); d.app_result("void")
     items = [("row", w) for w in widths]
+    if history is not None:
+        # the connection has streamed to a stalled client before: that stream ran into drain() and was then either resumed and
+        # completed, or ended by KILL QUERY while it waited there, or by KILL QUERY while the application was preparing it
+        d.payload(("query",))
+        if history == "killed-in-app":
+            d.kill("KQ", selfkill=False)
+        else:
+            d.simple("EvPause"); d.app_result("set", ncols=1, items=[("row", 5)] * (B // 8 + 10))
+            for _ in range(B + 50):
+                b = d.blocked()
+                if b == "sleep":
+                    d.simple("EvTick")
+                elif b == "row":
+                    d.simple("EvRowReady")
+                else:
+                    break
+            if history == "killed-in-drain" and d.blocked() == "drain":
+                d.kill("KQ", selfkill=False)
+            d.simple("EvResume")
+        for _ in range(3 * B + 100):
+            b = d.blocked()
+            if b == "sleep":
+                d.simple("EvTick")
+            elif b == "row":
+                d.simple("EvRowReady")
+            elif b == "drain":
+                d.simple("EvResume")
+            elif b == "app":
+                d.app_result("void")
+            else:
+                break
+        if d.blocked() != "read":
+            d.close()
+            return d, dict(problem=f"the connection did not return to the prompt after the first stream ({history}): '{d.blocked()}'")
     if kind == "text":
         d.payload(("query",)); d.simple("EvPause"); d.app_result("set", ncols=1, items=items)
     else:
@@ -116,7 +150,7 @@ def stalled_client(rng, kind, B, batch, widths, depeof):
     w = None
     if pulled > fit + 2 or d.blocked() != "drain":
         w = dict(problem=f"{pulled} of {len(items)} rows pulled although the client never read (at most {fit + 2} fit the {B}-byte buffer); "
-                         f"the server task is in '{d.blocked()}'", protocol=kind, widths=list(widths)[:12], B=B)
+                         f"the server task is in '{d.blocked()}'", protocol=kind, widths=list(widths)[:12], B=B, earlier_on_this_connection=history)
     d.simple("EvResume")
     for _ in range(6 * len(items) + 20):
         b = d.blocked()
@@ -225,6 +259,14 @@ def run(ctx: core.Ctx):
             drivers.append(r[0])
             if r[1] and witness is None:
                 witness = dict(kind="back-pressure", **r[1])
+    # the same on a connection with a history: an earlier stream to a stalled client that completed / was killed while waiting
+    for kind in ("text", "fetch"):
+        for hist in ("completed", "killed-in-drain", "killed-in-app"):
+            for Bx, ws in ((64, [5] * 60), (64, [5, 5, 300] * 15), (32768, [100] * 5 + [40000] * 10)):
+                r = stalled_client(rng, kind, Bx, 1000, ws, depeof=(len(hist) % 2 == 0), history=hist)
+                drivers.append(r[0])
+                if r[1] and witness is None:
+                    witness = dict(kind="back-pressure", **r[1])
     # random: other sizes incl. the real buffer size and long results
     for _ in range(20 if ctx.quick else 300):
         Bx = rng.choice([32, 64, 200, 32768]); bx = rng.choice([2, 5, 10000]); n = rng.choice([10, 40, 200])
@@ -274,7 +316,8 @@ def run(ctx: core.Ctx):
         ctx,
         rule="a 3*batch+2-row result (buffer 64 bytes, batch 3) in the text protocol, the binary protocol and a cursor fetch with the "
              "socket paused before every event and resumed two events later; random sizes incl. the real 32 KiB buffer and batch "
-             "10000; instrumented sources count pulls, the fake writer counts rows handed over; replayed on Model/Conn.v incl. its "
+             "10000; a client that never reads, on a fresh connection and on one whose earlier stream to a stalled client completed / was "
+             "killed while waiting in drain() / was killed inside the application; instrumented sources count pulls, the fake writer counts rows handed over; replayed on Model/Conn.v incl. its "
              "pulled / handed counters; a PING on a second connection during a 35000-row non-suspending stream with the real "
              "asyncio.sleep; an unbounded source with an always-NULL inferred column. distinct = runs",
         samples=[dict(events=[e[:50] for e in drivers[3].events[:14]])], distinct=len(drivers),
